@@ -189,6 +189,9 @@ func extractMethodTypesFromTuple(tuple *types.Tuple, isVariadic bool) []MethodTy
 // convertTypesToMethodType converts types.Type to MethodType
 func convertTypesToMethodType(t types.Type) MethodType {
 	// Handle pointer
+	// A type alias denotes the type it is declared as
+	t = types.Unalias(t)
+
 	if ptr, ok := t.(*types.Pointer); ok {
 		inner := convertTypesToMethodType(ptr.Elem())
 		if inner.IsPointer {
